@@ -7,6 +7,7 @@ package c10
 import (
 	"fmt"
 	"testing"
+	"time"
 
 	"github.com/rogpeppe/go-internal/par"
 	"pgregory.net/rapid"
@@ -27,6 +28,7 @@ type Plan struct {
 	Tasks  [][]Op      `json:"tasks"`
 	Yields []int       `json:"yields"` // per key: yields inside f
 	Nil    []bool      `json:"nil"`    // per key: f returns nil
+	Slow   []int       `json:"slow,omitempty"` // per key: simulated seconds f takes (it sleeps on the fake clock)
 	Sched  simrt.Sched `json:"sched"`
 }
 
@@ -37,6 +39,12 @@ func genPlan(t *rapid.T, tier string) any {
 	for k := 0; k < nk; k++ {
 		p.Yields = append(p.Yields, rapid.IntRange(0, 3).Draw(t, "yields"))
 		p.Nil = append(p.Nil, rapid.IntRange(0, 7).Draw(t, "nil") == 0)
+		slow := 0
+		if rapid.IntRange(0, 5).Draw(t, "slow") == 0 {
+			// a computation that takes long: however long, it is done once and everybody waits for it
+			slow = rapid.SampledFrom([]int{1, 6, 61, 3600}).Draw(t, "slowsecs")
+		}
+		p.Slow = append(p.Slow, slow)
 	}
 	for i := 0; i < nt; i++ {
 		n := rapid.IntRange(1, 4).Draw(t, "nops")
@@ -68,7 +76,13 @@ func run(t *testing.T, plan any, keep bool) *simcheck.Outcome {
 	doReturned := make([]bool, nk) // some Do(key) has returned
 	overlapDo, getDuringF, secondDoDuringF := false, false, false
 
-	rep := simrt.Run(t, simrt.Options{Sched: p.Sched, Strict: true, MaxSteps: 20000, KeepTrace: keep}, func(s *simrt.Sim) {
+	anySlow := false
+	for _, sl := range p.Slow {
+		anySlow = anySlow || sl > 0
+	}
+	// with a sleeping f nothing may be eligible for a while: the scheduler then idles on the fake clock
+	// (a run in which nothing happens for two simulated hours is a deadlock)
+	rep := simrt.Run(t, simrt.Options{Sched: p.Sched, Strict: !anySlow, IdleCap: 2 * time.Hour, MaxSteps: 20000, KeepTrace: keep}, func(s *simrt.Sim) {
 		var c par.Cache
 		for ti, ops := range p.Tasks {
 			ops := ops
@@ -106,6 +120,10 @@ func run(t *testing.T, plan any, keep bool) *simcheck.Outcome {
 						fRunning[k] = true
 						for i := 0; i < p.Yields[k]; i++ {
 							simrt.Yield("f")
+						}
+						if k < len(p.Slow) && p.Slow[k] > 0 {
+							time.Sleep(time.Duration(p.Slow[k]) * time.Second)
+							simrt.Yield("f.woke")
 						}
 						var r any
 						if !p.Nil[k] {
